@@ -317,6 +317,14 @@ def ref_rules(init, ops):
             out.append(str(len(data)))
         elif t in ("E", "M"):
             out.append(pairs(data))
+        elif t in ("X", "W"):
+            vis, stopped = [], False
+            for k, v in data:
+                vis.append((k, v))
+                if (k if t == "X" else v) == op[1]:
+                    stopped = True
+                    break
+            out.append(("stop:" if stopped else "full:") + pairs(vis))
         else:
             raise ValueError(op)
     return ";".join(out)
@@ -356,6 +364,13 @@ def rules_statement(init, ops, observed):
                 return "a stored rule is lost, doubled or out of call order", twice
             if init is None and any(c >= 2 for c in set_count.values()):
                 twice = True   # the finding: the key is listed once per Set
+        elif t in ("X", "W"):
+            sel = (lambda kv: kv[0]) if t == "X" else (lambda kv: kv[1])
+            hits = [n for n, kv in enumerate(stored) if sel(kv) == op[1]]
+            want = stored[:hits[0] + 1] if hits else stored
+            if o != ("stop:" if hits else "full:") + pairs(want):
+                return ("Each with a failing callback did not visit exactly the rules up to the first one the "
+                        "callback fails at"), twice
     return None, twice
 
 
@@ -387,11 +402,15 @@ def rules_random(rng, maxlen):
             ops.append(("H", k))
         elif r < 0.84:
             ops.append(("L",))
-        elif r < 0.92:
+        elif r < 0.88:
             ops.append(("E",))
+        elif r < 0.93:
+            ops.append(("X", k))
+        elif r < 0.96:
+            ops.append(("W", rng.choice([b"s%d" % rng.randint(0, max(i, 1)), b"a%d" % rng.randint(0, max(i, 1))])))
         else:
             ops.append(("M",))
-    return None, ops + [("E",), ("L",)] + [("G", k) for k in RULE_KEYS] + [("H", k) for k in RULE_KEYS]
+    return None, ops + [("E",), ("L",)] + [("X", k) for k in RULE_KEYS] + [("G", k) for k in RULE_KEYS] + [("H", k) for k in RULE_KEYS]
 
 
 def rules_new_random(rng):
@@ -399,8 +418,8 @@ def rules_new_random(rng):
     ops = []
     for _ in range(rng.randint(0, 6)):
         k = rng.choice(RULE_KEYS)
-        ops.append(rng.choice([("G", k), ("H", k), ("L",), ("E",), ("M",)]))
-    return d, ops + [("E",), ("M",), ("L",)] + [("G", k) for k in RULE_KEYS] + [("H", k) for k in RULE_KEYS]
+        ops.append(rng.choice([("G", k), ("H", k), ("L",), ("E",), ("M",), ("X", k), ("W", b"n%d" % rng.randint(0, 7))]))
+    return d, ops + [("E",), ("M",), ("L",)] + [("X", k) for k in RULE_KEYS] + [("G", k) for k in RULE_KEYS] + [("H", k) for k in RULE_KEYS]
 
 
 def stage_rules_model(res, tier, seed, rp):
@@ -430,7 +449,8 @@ def stage_rules_model(res, tier, seed, rp):
     unreachable_seen = 0
     for (init, ops), i, m in zip(scripts, impl, model):
         for o in ops:
-            name = {"S": "Set", "A": "Append", "G": "Get", "H": "Has", "L": "Len", "E": "Each", "M": "MarshalJSON"}[o[0]]
+            name = {"S": "Set", "A": "Append", "G": "Get", "H": "Has", "L": "Len", "E": "Each", "M": "MarshalJSON",
+                    "X": "Each(fails at a key)", "W": "Each(fails at a value)"}[o[0]]
             dist[name] = dist.get(name, 0) + 1
         if i != m:
             corr_bad.append(((init, ops), i, m))
